@@ -705,6 +705,28 @@ impl Check for C14 {
                 out.push(serde_json::to_value(Unit { level: fam::leaf(vec![a, b], Tail::None), len: tier.pick(2, 3), completers: vec![], fallback_with: false, decor: 0, hidden_cmds: vec![], completer_outer: false, shell_deco: false, untitled_groups: 0 }).unwrap());
             }
         }
+        // a command whose one-letter alias is the first letter of a sibling's name (the typed
+        // word `c` is the alias of one and a prefix of both); a command holding an item with the
+        // names of an item of the enclosing level
+        {
+            let sub = |slot: usize| fam::leaf(vec![fam::named(slot, Kind::Switch, 0, 0)], Tail::None);
+            for wrap in [CmdWrap::Required, CmdWrap::Optional] {
+                for order in 0..2 {
+                    let check = CmdDef { name: "check".into(), shorts: vec!['c'], longs: vec![], level: sub(4) };
+                    let clean = CmdDef { name: "clean".into(), shorts: vec![], longs: vec![], level: sub(5) };
+                    let cmds = if order == 0 { vec![check, clean] } else { vec![clean, check] };
+                    let l = fam::leaf(vec![fam::named(0, Kind::Switch, 1, 0)], Tail::Cmds { cmds, wrap });
+                    out.push(serde_json::to_value(Unit { level: l, len: tier.pick(2, 3), completers: vec![], fallback_with: false, decor: 0, hidden_cmds: vec![], completer_outer: false, shell_deco: false, untitled_groups: 0 }).unwrap());
+                }
+            }
+            for k in [Kind::Switch, Kind::Count] {
+                let same = |kind: Kind| Named { names: Names::both('v', "verbose"), kind, hidden: false, ty: Ty::Os, adjacent: false, guarded: false };
+                let other = Named { names: Names::long("input"), kind: Kind::ArgOpt, hidden: false, ty: Ty::Os, adjacent: false, guarded: false };
+                let inner = fam::leaf(vec![same(k), other], Tail::None);
+                let l = fam::leaf(vec![same(Kind::Switch)], Tail::Cmds { cmds: vec![CmdDef { name: "check".into(), shorts: vec![], longs: vec![], level: inner }], wrap: CmdWrap::Required });
+                out.push(serde_json::to_value(Unit { level: l, len: tier.pick(3, 4), completers: vec![], fallback_with: false, decor: 0, hidden_cmds: vec![], completer_outer: false, shell_deco: false, untitled_groups: 0 }).unwrap());
+            }
+        }
         out.push(json!({"adjgroup": false}));
         out.push(json!({"adjgroup": true}));
         out.push(json!({"altpos": false}));
@@ -793,7 +815,7 @@ impl Check for C14 {
         }
     }
     fn rule(&self) -> String {
-        "definitions = conventional levels (<=2 named items of all 10 kinds, naming styles incl. aliases; tails none / positionals / command trees of depth 3 with aliases, optional and defaulted choices); every third definition hides its first item, every fourth writes its defaults with fallback_with, every fifth wraps one of its sub-commands in hide(), repeated items are written many() / some(msg).optional() / many().catch() in rotation (optional items with and without catch()), a few use non-ASCII names, every second attaches an echoing completer (input+\"1\", input+\"2\") to every argument - half of them on the primitive, half above its optional / many / fallback wrapper; inputs = every vector of the token tree (incl. a non-UTF-8 word) as the already typed part x every typed last word from {empty, -, --, every prefix of every long name, every short name, --name=, --name=pre, command prefixes, plain words}; revision 0 through set_comp and (for short lines) through the --bpaf-complete-rev=0 marker; (a) the outcome is completion output for every line; (b) every candidate is the preferred spelling of a visible matching name of the active or an enclosing level, a value of the completer of the item being typed, or a metavariable placeholder - never a hidden item or a name below a command not entered; (c) on a fresh prefix every visible name of the active level that extends it and is not already given (single-use) is offered, commands when no word precedes, completer values for the item being typed; the active level / given set / pending value come from a reference scan of the typed part; right of `--` no option or command name may be offered whatever was typed; a choice between a positional and a named item (FILE | --list) behind a switch and inside a command must offer the name on every fresh prefix of it; lines the scan cannot classify (unknown names, clusters, separator) are only held to (a); state = (definition, line); every seventh definition puts its named items into group_help groups with an empty or blank title; switches beside an optional adjacent group (--point -x X), top level and inside a command: after every complete line of <=4 items every switch not given yet that extends the typed word is offered".into()
+        "definitions = conventional levels (<=2 named items of all 10 kinds, naming styles incl. aliases; tails none / positionals / command trees of depth 3 with aliases, optional and defaulted choices); every third definition hides its first item, every fourth writes its defaults with fallback_with, every fifth wraps one of its sub-commands in hide(), repeated items are written many() / some(msg).optional() / many().catch() in rotation (optional items with and without catch()), a few use non-ASCII names, every second attaches an echoing completer (input+\"1\", input+\"2\") to every argument - half of them on the primitive, half above its optional / many / fallback wrapper; inputs = every vector of the token tree (incl. a non-UTF-8 word) as the already typed part x every typed last word from {empty, -, --, every prefix of every long name, every short name, --name=, --name=pre, command prefixes, plain words}; revision 0 through set_comp and (for short lines) through the --bpaf-complete-rev=0 marker; (a) the outcome is completion output for every line; (b) every candidate is the preferred spelling of a visible matching name of the active or an enclosing level, a value of the completer of the item being typed, or a metavariable placeholder - never a hidden item or a name below a command not entered; (c) on a fresh prefix every visible name of the active level that extends it and is not already given (single-use) is offered, commands when no word precedes, completer values for the item being typed; the active level / given set / pending value come from a reference scan of the typed part; right of `--` no option or command name may be offered whatever was typed; a choice between a positional and a named item (FILE | --list) behind a switch and inside a command must offer the name on every fresh prefix of it; lines the scan cannot classify (unknown names, clusters, separator) are only held to (a); state = (definition, line); every seventh definition puts its named items into group_help groups with an empty or blank title; switches beside an optional adjacent group (--point -x X), top level and inside a command: after every complete line of <=4 items every switch not given yet that extends the typed word is offered; sibling commands where the one-letter alias of one is the first letter of the other's name; a command holding an item with the names of an item of the enclosing level".into()
     }
     fn bounds(&self, tier: Tier) -> Value {
         json!({"typed_part_length": tier.pick(2, 3), "typed_words": "18 fixed + all prefixes of all names"})
